@@ -145,6 +145,21 @@ def reader_rows(repo, parser: Func):
     return rows, lp
 
 
+def fields_var(parser: Func) -> str:
+    for n in walk_shallow(parser.node):
+        if isinstance(n, ast.Assign) and isinstance(n.targets[0], ast.Name) and isinstance(n.value, ast.Call) and isinstance(n.value.func, ast.Attribute) and n.value.func.attr == "split":
+            return n.targets[0].id
+    raise AnalysisError(f"{parser.short}: split-fields variable not found")
+
+
+def ftxt(parser: Func, node) -> str:
+    """norm(node) with the parser's fields variable spelled `fields`."""
+    import re as _re
+
+    fv = fields_var(parser)
+    return _re.sub(rf"\b{_re.escape(fv)}\b", "fields", norm(node))
+
+
 def _src(v):
     """Normalise a reader-side source expression to a short text."""
     while isinstance(v, Str):
@@ -221,7 +236,7 @@ def run(repo: Repo, L: Ledger, tier: str):
     ra, la = reader_rows(repo, pa)
     rt, lt = reader_rows(repo, pt)
 
-    _t1(repo, L, fa, ft, pa, pt)
+    _t1(repo, L, fa, ft, pa, pt, wa, wt, ra, rt)
     _t2(repo, L, ft, pt)
     _t3_agp(L, fa, pa, wa, ra)
     _t3_tpf(repo, L, ft, pt, wt, rt)
@@ -245,21 +260,38 @@ def _local_const(f: Func, name):
     return None
 
 
-def _t1(repo, L, fa, ft, pa, pt):
-    for fmt, prs, label, carried in ((fa, pa, "AGP", (0, 1, -1)), (ft, pt, "TPF", (1, -1))):
-        w = _local_const(fmt, "STRAND_STR")
-        r = _local_const(prs, "strand_dict")
-        if w is None:
-            # class attribute of Fragment?
-            w = try_fold(repo.find_class_attr(repo.cls("Fragment"), "STRAND_STR"), default=None)
-        if not isinstance(w, tuple | list | dict) or not isinstance(r, dict):
+def _tables_from(w, r):
+    """writer strand table (index -> word) and reader strand table (word -> strand) from the extracted rows."""
+    wt = rt = None
+    for (cols, _, _, _) in w.get("frag", {}).values():
+        for c in cols:
+            if isinstance(c, Lookup):
+                t = c.table
+                if isinstance(t, Tup):
+                    vals = [x.v if isinstance(x, Const) else None for x in t.items]
+                    wt = {0: vals[0], 1: vals[1], -1: vals[-1]} if len(vals) == 3 else None
+                elif isinstance(t, Const) and isinstance(t.v, dict):
+                    wt = dict(t.v)
+                elif isinstance(t, Const) and isinstance(t.v, tuple | list) and len(t.v) == 3:
+                    wt = {0: t.v[0], 1: t.v[1], -1: t.v[-1]}
+    for row in r:
+        v = row["fields"].get("_strand")
+        if isinstance(v, Lookup) and isinstance(v.table, Const) and isinstance(v.table.v, dict):
+            rt = dict(v.table.v)
+    return wt, rt
+
+
+def _t1(repo, L, fa, ft, pa, pt, wa=None, wt_=None, ra=None, rt_=None):
+    for fmt, prs, label, carried, w_rows, r_rows in ((fa, pa, "AGP", (0, 1, -1), wa, ra), (ft, pt, "TPF", (1, -1), wt_, rt_)):
+        w, r = _tables_from(w_rows, r_rows)
+        if not isinstance(w, dict) or not isinstance(r, dict):
             raise AnalysisError(f"{label}: strand tables not found as constants (writer {w!r}, reader {r!r})")
 
         def wv(s):
             return w[s]
 
         bad = [s for s in carried if r.get(wv(s), "missing") != s]
-        L.check(not bad, "T1", f"{label}:reader∘writer", f"reader[writer[s]] == s for s in {carried}", f"{label}: strand {bad} is written as {[wv(s) for s in bad]} and read back as {[r.get(wv(s), 'KeyError') for s in bad]}", fmt.loc(), witness={"writer": list(w) if not isinstance(w, dict) else w, "reader": r})
+        L.check(not bad, "T1", f"{label}:reader∘writer", f"reader[writer[s]] == s for s in {carried}", f"{label}: strand {bad} is written as {[wv(s) for s in bad]} and read back as {[r.get(wv(s), 'KeyError') for s in bad]}", fmt.loc(), witness={"writer": w, "reader": r})
         img = {wv(s) for s in carried}
         extra = {k: v for k, v in r.items() if k not in img}
         bad2 = {k: v for k, v in extra.items() if v in carried}
@@ -443,10 +475,10 @@ def _t3_tpf(repo, L, ft, pt, w, r):
         ok_groups = srcs["_name"] == "group(1)" and srcs["_start"] == "group(2)" and srcs["_end"] == "group(3)"
         L.check(ok_groups, "T3", "TPF:frag:groups", "name, start, end = regex groups 1, 2, 3", f"reader builds the fragment from {srcs}", pt.loc(frag_rows[0]["node"]))
         # which column is matched
-        mcalls = [c for c in walk_shallow(pt.node) if isinstance(c, ast.Call) and (dotted(c.func) or "") in ("re.match", "re.fullmatch", "re.search") and len(c.args) >= 2 and "fields[" in norm(c.args[1])]
+        mcalls = [c for c in walk_shallow(pt.node) if isinstance(c, ast.Call) and (dotted(c.func) or "") in ("re.match", "re.fullmatch", "re.search") and len(c.args) >= 2 and "fields[" in ftxt(pt, c.args[1])]
         if len(mcalls) != 1:
             raise AnalysisError("parse_tpf: name regex match not found")
-        k = _field_index(norm(mcalls[0].args[1]))
+        k = _field_index(ftxt(pt, mcalls[0].args[1]))
         pat = try_fold(mcalls[0].args[0], default=None)
         col = wc[k] if k is not None and k < len(wc) else None
         L.check(col is not None and col[0] == "fstr", "T3", "TPF:frag:name-column", f"column {k + 1} holds name:start-end", f"reader parses column {k + 1 if k is not None else '?'}, writer puts {col} there", ft.loc(node))
@@ -569,14 +601,14 @@ def _t5(repo, L):
 
 
 def _t7(L, parser: Func, lp, col):
-    ifs = [n for n in walk_shallow(lp) if isinstance(n, ast.If) and isinstance(n.test, ast.Compare) and len(n.test.ops) == 1 and isinstance(n.test.ops[0], ast.NotEq) and norm(n.test.left) == f"fields[{col}]"]
+    ifs = [n for n in walk_shallow(lp) if isinstance(n, ast.If) and isinstance(n.test, ast.Compare) and len(n.test.ops) == 1 and isinstance(n.test.ops[0], ast.NotEq) and ftxt(parser, n.test.left) == f"fields[{col}]"]
     ok, why = False, f"no `fields[{col}] != <current name>` scaffold switch"
     if len(ifs) == 1:
         iff = ifs[0]
         cur = norm(iff.test.comparators[0])
-        body = [norm(s) for s in iff.body]
+        body = [ftxt(parser, s) for s in iff.body]
         sets_cur = any(b == f"{cur} = fields[{col}]" for b in body)
-        new_sc = any(isinstance(s, ast.Assign) and isinstance(s.value, ast.Call) and dotted(s.value.func) == "Scaffold" and norm(s.value.args[0]) in (cur, f"fields[{col}]") for s in iff.body)
+        new_sc = any(isinstance(s, ast.Assign) and isinstance(s.value, ast.Call) and dotted(s.value.func) == "Scaffold" and ftxt(parser, s.value.args[0]) in (cur, f"fields[{col}]") for s in iff.body)
         added = any("add_scaffold(" in b for b in body)
         ok = sets_cur and new_sc and added and not iff.orelse
         why = f"scaffold switch incomplete: remembers name={sets_cur}, new Scaffold={new_sc}, added to assembly={added}"
